@@ -235,7 +235,11 @@ func genDocument(s *simrt.Sim, objRoot bool) (any, string) {
 		l := at.NewList()
 		n := 1500 + s.Draw("wide-n", 1000)
 		for i := 0; i < n; i++ {
-			l.Add(strings.Repeat(stringPool[s.Draw("string", len(stringPool))]+"x", 1+i%40))
+			piece := stringPool[s.Draw("string", len(stringPool))]
+			if len(piece) > 24 {
+				piece = piece[:24] // the long pool entries would make this document tens of megabytes
+			}
+			l.Add(strings.Repeat(piece+"x", 1+i%40))
 		}
 		if objRoot {
 			c = at.NewObject("wide", l, "k", 1)
@@ -432,7 +436,7 @@ func runDisk(ch *simrt.Chooser, opt Options) RunResult {
 		case "torn":
 			// every cut point of small documents; sampled cut points of large ones
 			var cuts []int
-			if len(b) <= 1500 {
+			if len(b) <= 1024 {
 				for k := 0; k < len(b); k++ {
 					cuts = append(cuts, k)
 				}
